@@ -70,7 +70,7 @@ func c18(c *core.Ctx, r *core.Report) {
 		}
 		collect(root)
 		for _, f := range fns {
-			for _, ii := range core.InlinedInstrs(c, f, 3, func(ins ssa.Instruction) bool {
+			for _, ii := range core.InlinedInstrs(c, f, c.Depth(3), func(ins ssa.Instruction) bool {
 				switch x := ins.(type) {
 				case *ssa.FieldAddr:
 					return core.SSATypeName(x.X.Type()) != ""
